@@ -70,6 +70,10 @@ pub struct CeremonyTrace {
     /// schemes: ring's entropy is not a function of the seed); when present nothing is signed again
     #[serde(default)]
     pub frozen_sigs: Option<Value>,
+    /// the metadata value is built through the library's typed API (structs, enums, builders), not
+    /// through its parser
+    #[serde(default)]
+    pub typed_api: bool,
 }
 
 /// The same key material declared with another scheme (None if the library refuses to build it).
@@ -97,9 +101,12 @@ pub fn body_value(b: &BodySpec, keys: &[KeySpec]) -> Value {
 }
 
 /// Sign through one of the two construction paths. Returns the block.
-fn construct(signed: &Value, signers: &[usize], keyspecs: &[KeySpec], builder_path: bool) -> Result<Metablock, String> {
+fn construct(signed: &Value, signers: &[usize], keyspecs: &[KeySpec], builder_path: bool, typed: Option<MetadataWrapper>) -> Result<Metablock, String> {
     let text = serde_json::to_string(signed).map_err(|e| e.to_string())?;
-    let meta: MetadataWrapper = MetadataWrapper::try_from_bytes(text.as_bytes()).map_err(|e| format!("{e}"))?;
+    let meta: MetadataWrapper = match typed {
+        Some(m) => m,
+        None => MetadataWrapper::try_from_bytes(text.as_bytes()).map_err(|e| format!("{e}"))?,
+    };
     let ks: Vec<_> = signers.iter().map(|k| keys::key(keyspecs[*k])).collect();
     let privs: Vec<&PrivateKey> = ks.iter().map(|k| &k.private).collect();
     if builder_path {
@@ -152,7 +159,11 @@ pub fn prepare(t: &CeremonyTrace) -> Prepared {
             Err(e) => Prepared { mb: None, state3: Value::Null, unsignable: Some(format!("{e}")), fired },
         };
     }
-    let mb = match construct(&signed, &t.signers, &t.keys, t.builder_path) {
+    let typed = if t.typed_api { crate::typed::body(&t.body, &t.keys) } else { None };
+    if t.typed_api && typed.is_some() {
+        fired.push("TYPED-API".into());
+    }
+    let mb = match construct(&signed, &t.signers, &t.keys, t.builder_path, typed.clone()) {
         Ok(m) => m,
         Err(e) => return Prepared { mb: None, state3: Value::Null, unsignable: Some(e), fired },
     };
@@ -160,7 +171,7 @@ pub fn prepare(t: &CeremonyTrace) -> Prepared {
     let mut sigs: Vec<Value> = serde_json::to_value(&mb.signatures).unwrap().as_array().cloned().unwrap_or_default();
     for r in &t.resign {
         if let Some(k) = t.signers.get(*r) {
-            if let Ok(m2) = construct(&signed, &[*k], &t.keys, false) {
+            if let Ok(m2) = construct(&signed, &[*k], &t.keys, false, typed.clone()) {
                 if let Some(s) = serde_json::to_value(&m2.signatures).unwrap().as_array().and_then(|a| a.first().cloned()) {
                     sigs.push(s);
                     fired.push("RESIGN".into());
@@ -573,6 +584,7 @@ fn base_trace(seed: u64, tier: Tier, mode: Mode) -> (CeremonyTrace, Rng) {
         auth_scheme: vec![],
         auth_json_alias: vec![],
         frozen_sigs: None,
+        typed_api: r.chance(1, 2),
     };
     (t, r)
 }
